@@ -16,6 +16,8 @@ import (
 	"os"
 	"path/filepath"
 	"strings"
+	"sync"
+	"sync/atomic"
 	"syscall"
 	"testing"
 	"testing/synctest"
@@ -534,6 +536,123 @@ func c20Chain(t *testing.T, dir string, mark bool, a c20Round, probe time.Durati
 	return op, res
 }
 
+
+// ---------------------------------------------------------------- the scope counter under real concurrency
+//
+// c20ScopeStress: the REAL BeginReloadProxyFailureSuppression / EndReloadProxyFailureSuppression, ungated, on
+// several goroutines at once (model: lean/DaeVerif/C20/Scope.lean, theorem scope_counter_balanced: every End
+// that returns has decremented exactly once, balanced scopes leave the counter at 0).  Two shapes:
+//   balanced   G goroutines, each `Begin; End` in a tight loop; at every barrier the counter must be 0
+//   overlap    the release of request N (End on one goroutine) races the accept of request N+1 (Begin on
+//              another), then N+1 is released: after every round the counter must be 0
+// The oracle is on the implementation (counter at a quiescent point); nothing depends on wall-clock time.
+func c20ScopeStress(t *testing.T, st *VStats) map[string]any {
+	out := map[string]any{}
+	outbounddialer.VerifC20ResetSuppression()
+	// long enough chunks that the goroutines really overlap (a 2500-iteration loop is over before the next goroutine starts)
+	workers, chunks, iters := 8, 8, 10000
+	if VThorough() {
+		chunks = 32
+	}
+	bad := ""
+	total := 0
+	for c := 0; c < chunks && bad == ""; c++ {
+		var wg sync.WaitGroup
+		start := make(chan struct{})
+		for w := 0; w < workers; w++ {
+			wg.Add(1)
+			go func() {
+				defer wg.Done()
+				<-start
+				for i := 0; i < iters; i++ {
+					outbounddialer.BeginReloadProxyFailureSuppression()
+					outbounddialer.EndReloadProxyFailureSuppression()
+				}
+			}()
+		}
+		close(start)
+		wg.Wait()
+		total += workers * iters
+		if n := outbounddialer.VerifC20Suppression(); n != 0 {
+			bad = fmt.Sprintf("balanced: after %d Begin/End pairs on %d goroutines (barrier %d) the scope counter is %d, not 0", total, workers, c+1, n)
+		}
+	}
+	out["balanced_pairs"] = total
+	st.Add("scope_balanced_pairs", total)
+	// overlap: a spinning release goroutine, the main loop accepts the next request
+	rounds := 200000
+	if VThorough() {
+		rounds = 800000
+	}
+	done := 0
+	if bad == "" {
+		outbounddialer.VerifC20ResetSuppression()
+		var phase, ack atomic.Int64
+		stop := make(chan struct{})
+		go func() { // the release goroutine of request N: clearReloadPending has stored pending=false, now Ends
+			for i := int64(1); ; i++ {
+				for phase.Load() != i {
+					select {
+					case <-stop:
+						return
+					default:
+					}
+				}
+				outbounddialer.EndReloadProxyFailureSuppression()
+				ack.Store(i)
+			}
+		}()
+		deadline := time.Now().Add(120 * time.Second)
+		timedOut := false
+		outbounddialer.BeginReloadProxyFailureSuppression() // request 0 accepted
+		for i := int64(1); i <= int64(rounds) && bad == ""; i++ {
+			phase.Store(i)                                      // request i-1 is released …
+			outbounddialer.BeginReloadProxyFailureSuppression() // … while request i is accepted
+			for ack.Load() != i {
+				if i%4096 == 0 && time.Now().After(deadline) {
+					timedOut = true
+					break
+				}
+			}
+			if timedOut {
+				break
+			}
+			// quiescent: exactly request i is in progress
+			if n := outbounddialer.VerifC20Suppression(); n != 1 {
+				bad = fmt.Sprintf("overlap: round %d: the End of request %d raced the Begin of request %d; both returned and the scope counter is %d, not 1 — a scope was lost, node-failure reports stay muted for good", i, i-1, i, n)
+			}
+			done = int(i)
+		}
+		close(stop)
+		if timedOut {
+			out["timeout"] = true
+		}
+		if bad == "" {
+			outbounddialer.EndReloadProxyFailureSuppression()
+			if n := outbounddialer.VerifC20Suppression(); n != 0 {
+				bad = fmt.Sprintf("overlap: after %d rounds and the last release the scope counter is %d, not 0", done, n)
+			}
+		}
+	}
+	out["overlap_rounds"] = done
+	st.Add("scope_overlap_rounds", done)
+	out["violation"] = bad
+	if bad == "" {
+		// and the window: muted right after the last End, not after reloadFailureQuiesce (virtual time)
+		synctest.Test(t, func(t *testing.T) {
+			outbounddialer.VerifC20ResetSuppression()
+			outbounddialer.BeginReloadProxyFailureSuppression()
+			outbounddialer.EndReloadProxyFailureSuppression()
+			m0 := outbounddialer.VerifC20SuppressedNow()
+			time.Sleep(outbounddialer.VerifC20Quiesce())
+			m1 := outbounddialer.VerifC20SuppressedNow()
+			out["mute"] = fmt.Sprintf("%s,%s", c20B(m0), c20B(m1))
+		})
+	}
+	outbounddialer.VerifC20ResetSuppression()
+	return out
+}
+
 func c20RetireStream(t *testing.T, st *VStats, r *VRand) int {
 	out := VOpenStream("c20ret")
 	defer out.Close()
@@ -547,6 +666,12 @@ func c20RetireStream(t *testing.T, st *VStats, r *VRand) int {
 
 	if b, err := json.Marshal(c20WitnessForeignBusy(t, progPath)); err == nil {
 		_ = os.WriteFile(filepath.Join(VOutDir(), "c20.witness.json"), b, 0o644)
+	}
+	t0 := time.Now()
+	sc := c20ScopeStress(t, st)
+	sc["wall_ms"] = time.Since(t0).Milliseconds()
+	if b, err := json.Marshal(sc); err == nil {
+		_ = os.WriteFile(filepath.Join(VOutDir(), "c20.scope.json"), b, 0o644)
 	}
 	total := reloadTotalSwitchBudget
 	n := 0
